@@ -175,6 +175,14 @@ func setupCb(c *casket.Controller) error {
 			return nil
 		}
 	}
+	if fail["failshutdownfirst"] {
+		// another directive's shutdown callback, registered before ours, that
+		// reports an error: the callbacks after it still run
+		c.OnShutdown(func() error {
+			emit(gen, "shutdown-erroring", "")
+			return fmt.Errorf("scripted failure of an earlier shutdown callback of generation %d", gen)
+		})
+	}
 	c.OnFirstStartup(mk("first-startup"))
 	c.OnStartup(mk("startup"))
 	c.OnRestart(mk("restart"))
@@ -311,7 +319,7 @@ func (c cfg) text(occupied string) string {
 	switch c.Fail {
 	case "setup":
 		b.WriteString(" srv onlyonearg\n cb\n")
-	case "failfirst-startup", "failstartup":
+	case "failfirst-startup", "failstartup", "failshutdownfirst":
 		fmt.Fprintf(&b, " cb %s\n", c.Fail)
 	case "listen":
 		fmt.Fprintf(&b, " srv %s graceful\n cb\n", occupied)
@@ -857,6 +865,9 @@ type sigScenario struct {
 	// directives while a second, healthy instance (generation 60) is started;
 	// then the held one (generation 50) is let go and fails.
 	Overlap string `json:"overlap,omitempty"`
+	// ShutdownErr: the instance has two shutdown callbacks and the first one
+	// reports an error.
+	ShutdownErr bool `json:"first_shutdown_callback_errs,omitempty"`
 }
 
 func signalRuns(c *lib.Ctx) {
@@ -878,6 +889,7 @@ func signalRuns(c *lib.Ctx) {
 		{Name: "USR1ok,failing-start||second-start,SIGTERM", Reloads: []string{"ok"}, Overlap: "start", Signals: []string{"TERM"}},
 		{Name: "three-instances,SIGTERM||stop-of-the-first", Overlap: "stop-first", Signals: []string{"TERM"}},
 		{Name: "three-instances,SIGINT||stop-of-the-first", Overlap: "stop-first", Signals: []string{"INT"}},
+		{Name: "SIGINT,first-of-two-shutdown-callbacks-errs", Signals: []string{"INT"}, ShutdownErr: true},
 	}
 	reps := c.Pick(1, 16)
 	for r := 0; r < reps; r++ {
@@ -1027,6 +1039,8 @@ func procChild(args []string) int {
 		c := cfg{Gen: gen, Srvs: []string{fmt.Sprintf("127.0.0.1:%d graceful", in.Ports[0]), fmt.Sprintf("127.0.0.1:%d graceful", in.Ports[1+gen%2])}}
 		if fail {
 			c.Fail = "failstartup"
+		} else if in.Scenario.ShutdownErr {
+			c.Fail = "failshutdownfirst"
 		}
 		return input(c.text(""))
 	}
